@@ -173,6 +173,7 @@ def run(ctx):
         "harness/src/bin/c15.rs MapBackend (store with overwrite semantics), RecBackend log, effect classification new/same/over by comparing store content before and after",
     ]
     ctx.assumptions += [
+        "hot/cold repair: replacing an incomplete hot copy by exactly the bytes of the cold file (class W:hot.<type>:resync) is not counted as replacing stored data - the cold part holds the stored file, the hot part a copy (this is what C16 requires of the repair); overwriting a cold file, or a hot file with bytes other than the cold file's, is",
         "names written through save_file / save_list / hash_write_full* / the packer are SHA-256 of the bytes written: a write to an existing name rewrites identical bytes (collision-freedom); observed: class W:<type>:same never W:<type>:over",
         "the command model is an over-approximation built from the syntactic inventory: every call site runs whenever its enclosing option / dry-run conditions hold, on names chosen by the environment; loops, early returns and data conditions are not interpreted (PARTIAL)",
         "Packer/BlobCopier/TreeModifier/Rewriter/Archiver and Indexer are sinks that only write packs and index files through blob/packer.rs FileWriterHandle::process and index/indexer.rs Indexer::save (checked: these are the only direct storage calls in those files; listed in the inventory)",
